@@ -144,6 +144,7 @@ partial def compileStmts (ss : List SX) (env : VEnv) (k : VEnv → Prog) : Prog 
     | "emit", [n] => .emit n.toNat (next env)
     | "cleanup", body => .cleanup (compileCleanup body) (next env)
     | "ctx", _ => .ctx (next env)
+    | "ctxlive", _ => .ctx (next env)      -- in the body the context of the invocation is always live
     | "repeat", parts =>
         let acts := parts.filter (·.head == "act")
         let chk := match parts.find? (·.head == "check") with
